@@ -2,9 +2,9 @@
 Theorems for schemes `ebuild` and `alpine`: on valid versions `gentoo.vercmp` computes the key
 order `keyC` (PMS §3.3 with rule 3.3 applied to the first component too) and is therefore a
 lawful comparator (C01); it computes the PMS order itself on versions whose first component has
-no superfluous leading zero (C03, partial + counterexample `010` vs `10`); `== != < >` agree
-with it, the inherited `<= >=` do not (C02, partial + counterexamples); the classes are
-unhashable (C12 vacuous); `str` round-trips (C11).
+no superfluous leading zero (C03, partial + counterexample `010` vs `10`); the six operators
+agree with it (C02); `==` implies equal hash keys on valid versions (C12); `str` round-trips
+(C11).
 -/
 import Univers.Scheme.GentooSpec
 import Univers.Vers.Spec
@@ -231,42 +231,49 @@ def EntryOK (e : List Char × Int) : Prop :=
 instance (e : List Char × Int) : Decidable (EntryOK e) := by unfold EntryOK; infer_instance
 
 theorem sufMatchIn_some (tbl : List (List Char × Int)) (htbl : ∀ e ∈ tbl, EntryOK e)
-    (p : List Char) (val : Int) (digits : List Char)
-    (h : sufMatchIn tbl p = some (val, digits)) :
-    sufKey p = (val, natOfDigits digits) ∧ val ≠ 0 := by
+    (p : List Char) (name : List Char) (val : Int) (digits : List Char)
+    (h : sufMatchIn tbl p = some (name, val, digits)) :
+    sufKey p = (val, natOfDigits digits) ∧ val ≠ 0 ∧ (name, val) ∈ tbl := by
   induction tbl with
   | nil => simp [sufMatchIn] at h
   | cons e more ih =>
-    obtain ⟨name, v⟩ := e
+    obtain ⟨nm, v⟩ := e
     have hm := ih (fun e he => htbl e (by simp [he]))
-    obtain ⟨hn, hrk, hv0⟩ := htbl (name, v) (by simp)
+    obtain ⟨hn, hrk, hv0⟩ := htbl (nm, v) (by simp)
     simp only [sufMatchIn] at h
-    cases hs : stripPrefix name p with
-    | none => simp only [hs] at h; exact hm h
+    cases hs : stripPrefix nm p with
+    | none =>
+      simp only [hs] at h
+      obtain ⟨h1, h2, h3⟩ := hm h
+      exact ⟨h1, h2, by simp [h3]⟩
     | some rest =>
       simp only [hs] at h
       by_cases hr : rest.all Char.isDigit = true
       · simp only [hr, if_true, Option.some.injEq, Prod.mk.injEq] at h
-        obtain ⟨rfl, rfl⟩ := h
-        rw [stripPrefix_eq name p rest hs, sufKey_append name rest hn hr]
-        exact ⟨by rw [hrk], hv0⟩
+        obtain ⟨rfl, rfl, rfl⟩ := h
+        rw [stripPrefix_eq nm p rest hs, sufKey_append nm rest hn hr]
+        exact ⟨by rw [hrk], hv0, by simp⟩
       · simp only [hr, Bool.false_eq_true, if_false] at h
-        exact hm h
+        obtain ⟨h1, h2, h3⟩ := hm h
+        exact ⟨h1, h2, by simp [h3]⟩
 
 theorem sufNames_ok : ∀ e ∈ sufNames, EntryOK e := by decide
 
 /-- a part that `suffix_regexp` matches -/
 def SufOK (p : List Char) : Prop := (sufMatch p).isSome = true
 
-theorem suf_eq_sufKey (p : List Char) (h : SufOK p) : suf p = sufKey p ∧ (sufKey p).1 ≠ 0 := by
-  simp only [SufOK] at h
-  cases hm : sufMatch p with
+theorem sufOK_matchIn (p : List Char) (h : SufOK p) :
+    ∃ name val digits, sufMatchIn sufNames p = some (name, val, digits) := by
+  simp only [SufOK, sufMatch] at h
+  cases hm : sufMatchIn sufNames p with
   | none => simp [hm] at h
-  | some r =>
-    obtain ⟨val, digits⟩ := r
-    have := sufMatchIn_some sufNames sufNames_ok p val digits hm
-    simp only [suf, hm, natOfDigits_zero_cons, this.1]
-    exact ⟨trivial, this.2⟩
+  | some t => exact ⟨t.1, t.2.1, t.2.2, rfl⟩
+
+theorem suf_eq_sufKey (p : List Char) (h : SufOK p) : suf p = sufKey p ∧ (sufKey p).1 ≠ 0 := by
+  obtain ⟨name, val, digits, hm⟩ := sufOK_matchIn p h
+  have := sufMatchIn_some sufNames sufNames_ok p name val digits hm
+  simp only [suf, sufMatch, hm, Option.map_some, natOfDigits_zero_cons, this.1]
+  exact ⟨trivial, this.2.1⟩
 
 theorem sufCmp_self (k : Suf) : sufCmp k k = .eq := ReflCmp.compare_self
 
@@ -547,49 +554,373 @@ theorem vercmp_eq_key_counterexample_alpine :
 
 /-! ### operators (C02) -/
 
-/-- C02, the part that holds: `== != < >` are the operators induced by `gentoo.vercmp` -/
-theorem verOps_lawful_partial :
-    (∀ a b, verOps.eq a b = (vercmp a b == .eq)) ∧ (∀ a b, verOps.ne a b = (vercmp a b != .eq))
-    ∧ (∀ a b, verOps.lt a b = (vercmp a b == .lt)) ∧ (∀ a b, verOps.gt a b = (vercmp a b == .gt)) := by
-  refine ⟨fun _ _ => rfl, ?_, fun _ _ => rfl, fun _ _ => rfl⟩
+/-- C02: the six operators of `GentooVersion` / `AlpineLinuxVersion` are the ones induced by
+`gentoo.vercmp` -/
+theorem verOps_lawful : Lawful verOps vercmp := by
+  refine ⟨fun _ _ => rfl, fun _ _ => rfl, fun _ _ => rfl, fun _ _ => rfl, fun _ _ => rfl, ?_⟩
   intro a b
   simp only [verOps]
   cases vercmp a b <;> rfl
 
-/-- `<=` (inherited from attrs `Version`) is the code-point order of the raw strings -/
-theorem verOps_le_eq_str (a b : Raw) : verOps.le a b = (strCmp a b != .gt) := by
-  simp only [verOps, Univers.Py.attrsOps, valOps, Univers.Py.opsOfSign]
-  cases strCmp a b <;> rfl
+/-! ### hash (C12): equal valid versions have equal hash keys -/
 
-/-- `>=` (inherited from attrs `Version`) is the code-point order of the raw strings -/
-theorem verOps_ge_eq_str (a b : Raw) : verOps.ge a b = (strCmp a b != .lt) := by
-  simp only [verOps, Univers.Py.attrsOps, valOps, Univers.Py.opsOfSign]
-  cases strCmp a b <;> rfl
+theorem lexList_eq_eq {α} (cmp : α → α → Ordering) (hc : ∀ a b, cmp a b = .eq → a = b) :
+    ∀ l1 l2 : List α, lexList cmp l1 l2 = .eq → l1 = l2 := by
+  intro l1
+  induction l1 with
+  | nil => intro l2 h; cases l2 <;> simp_all [lexList]
+  | cons x xs ih =>
+    intro l2 h
+    cases l2 with
+    | nil => simp [lexList] at h
+    | cons y ys =>
+      simp only [lexList, Ordering.then_eq_eq] at h
+      rw [hc x y h.1, ih ys h.2]
 
-/-- `GentooVersion("1.10") <= GentooVersion("1.9")` is True although `1.10 > 1.9` -/
-theorem verOps_le_counterexample :
-    Valid "1.10".toList ∧ Valid "1.9".toList ∧ vercmp "1.10".toList "1.9".toList = .gt
-    ∧ verOps.gt "1.10".toList "1.9".toList = true ∧ verOps.le "1.10".toList "1.9".toList = true := by
-  decide
+theorem padLex_eq_eq {α} (cmp : α → α → Ordering) (d : α) (hc : ∀ a b, cmp a b = .eq → a = b) :
+    ∀ l1 l2 : List α, (∀ x ∈ l1, cmp x d ≠ .eq) → (∀ x ∈ l2, cmp d x ≠ .eq) →
+    padLex cmp d l1 l2 = .eq → l1 = l2 := by
+  intro l1
+  induction l1 with
+  | nil =>
+    intro l2 _ h2 h
+    cases l2 with
+    | nil => rfl
+    | cons y ys =>
+      simp only [padLex, Ordering.then_eq_eq] at h
+      exact absurd h.1 (h2 y (by simp))
+  | cons x xs ih =>
+    intro l2 h1 h2 h
+    cases l2 with
+    | nil =>
+      simp only [padLex, Ordering.then_eq_eq] at h
+      exact absurd h.1 (h1 x (by simp))
+    | cons y ys =>
+      simp only [padLex, Ordering.then_eq_eq] at h
+      rw [hc x y h.1, ih ys (fun z hz => h1 z (by simp [hz])) (fun z hz => h2 z (by simp [hz])) h.2]
 
-/-- `GentooVersion("1.0") == GentooVersion("1.00")` but `>=` is False (and `<=` the other way) -/
-theorem verOps_ge_counterexample :
-    Valid "1.0".toList ∧ Valid "1.00".toList ∧ verOps.eq "1.0".toList "1.00".toList = true
-    ∧ verOps.ge "1.0".toList "1.00".toList = false ∧ verOps.le "1.00".toList "1.0".toList = false := by
-  decide
+theorem charCmp_eq_eq (a b : Char) (h : charCmp a b = .eq) : a = b := by
+  simp only [charCmp, Nat.compare_eq_eq] at h
+  exact Char.toNat_inj.1 h
 
-theorem not_lawful_verOps : ¬ Lawful verOps vercmp := by
+theorem strCmp_eq_eq (a b : List Char) (h : strCmp a b = .eq) : a = b :=
+  lexList_eq_eq charCmp charCmp_eq_eq a b h
+
+theorem compCmp_eq_eq (a b : Comp) (h : compCmp a b = .eq) : a = b := by
+  obtain ⟨a1, a2, a3⟩ := a
+  obtain ⟨b1, b2, b3⟩ := b
+  simp only [compCmp, lexPair, Ordering.then_eq_eq, natCmp, Nat.compare_eq_eq] at h
+  rw [h.1, strCmp_eq_eq _ _ h.2.1, h.2.2]
+
+theorem sufCmp_eq_eq (a b : Suf) (h : sufCmp a b = .eq) : a = b := by
+  obtain ⟨a1, a2⟩ := a
+  obtain ⟨b1, b2⟩ := b
+  simp only [sufCmp, lexPair, Ordering.then_eq_eq, natCmp, intCmp, Nat.compare_eq_eq,
+    Int.compare_eq_eq] at h
+  rw [h.1, h.2]
+
+/-! #### `int` is injective on digit strings without a leading zero -/
+
+theorem digit_bounds {c : Char} (h : c.isDigit = true) : 48 ≤ c.toNat ∧ c.toNat ≤ 57 := by
+  simp only [Char.isDigit, Bool.and_eq_true, decide_eq_true_eq] at h
+  have h1 := h.1
+  have h2 := h.2
+  simp only [UInt32.le_iff_toNat_le] at h1 h2
+  simp only [Char.toNat] at *
+  simp at h1 h2 ⊢
+  omega
+
+/-- the value of a digit string read from its last character -/
+def natR : List Char → Nat
+  | [] => 0
+  | c :: r => 10 * natR r + (c.toNat - '0'.toNat)
+
+theorem natR_eq (l : List Char) : natR l = natOfDigits l.reverse := by
+  induction l with
+  | nil => rfl
+  | cons c r ih =>
+    simp only [natR, ih, natOfDigits, List.reverse_cons, List.foldl_append, List.foldl_cons,
+      List.foldl_nil]
+
+/-- a reversed digit string whose first digit (the last element) is not `0` -/
+def QR (l : List Char) : Prop := (∀ c ∈ l, c.isDigit = true) ∧ l.getLast? ≠ some '0'
+
+theorem QR_tail (c : Char) (r : List Char) (h : QR (c :: r)) : QR r := by
+  refine ⟨fun x hx => h.1 x (by simp [hx]), ?_⟩
+  cases r with
+  | nil => simp
+  | cons d ds => simpa [List.getLast?_cons_cons] using h.2
+
+theorem natR_pos (l : List Char) (h : QR l) (hne : l ≠ []) : 0 < natR l := by
+  induction l with
+  | nil => exact absurd rfl hne
+  | cons c r ih =>
+    cases r with
+    | nil =>
+      have hd := h.1 c (by simp)
+      have h0 : c ≠ '0' := by
+        intro hc; subst hc; exact h.2 (by simp)
+      have hlt := digit_ne_zero_gt hd h0
+      simp only [charCmp, Nat.compare_eq_lt] at hlt
+      simp only [natR]
+      omega
+    | cons d ds =>
+      have := ih (QR_tail c (d :: ds) h) (by simp)
+      simp only [natR] at this ⊢
+      omega
+
+theorem natR_inj (l1 : List Char) : ∀ l2 : List Char, QR l1 → QR l2 → natR l1 = natR l2 → l1 = l2 := by
+  induction l1 with
+  | nil =>
+    intro l2 _ h2 h
+    cases l2 with
+    | nil => rfl
+    | cons c r =>
+      have := natR_pos (c :: r) h2 (by simp)
+      simp only [natR] at h this
+      omega
+  | cons c1 r1 ih =>
+    intro l2 h1 h2 h
+    cases l2 with
+    | nil =>
+      have := natR_pos (c1 :: r1) h1 (by simp)
+      simp only [natR] at h this
+      omega
+    | cons c2 r2 =>
+      have b1 := digit_bounds (h1.1 c1 (by simp))
+      have b2 := digit_bounds (h2.1 c2 (by simp))
+      simp only [natR] at h
+      have hz : '0'.toNat = 48 := by decide
+      rw [hz] at h
+      have hr : natR r1 = natR r2 := by omega
+      have hc : c1.toNat = c2.toNat := by omega
+      rw [Char.toNat_inj.1 hc, ih r2 (QR_tail c1 r1 h1) (QR_tail c2 r2 h2) hr]
+
+theorem natOfDigits_inj (s t : List Char) (hs : ∀ c ∈ s, c.isDigit = true)
+    (ht : ∀ c ∈ t, c.isDigit = true) (zs : s.head? ≠ some '0') (zt : t.head? ≠ some '0')
+    (h : natOfDigits s = natOfDigits t) : s = t := by
+  have e1 := natR_eq s.reverse
+  have e2 := natR_eq t.reverse
+  simp only [List.reverse_reverse] at e1 e2
+  have q1 : QR s.reverse := ⟨fun c hc => hs c (by simpa using hc), by simpa using zs⟩
+  have q2 : QR t.reverse := ⟨fun c hc => ht c (by simpa using hc), by simpa using zt⟩
+  have := natR_inj _ _ q1 q2 (by rw [e1, e2, h])
+  exact List.reverse_inj.1 this
+
+theorem compKey_hash (c1 c2 : List Char) (h1 : DigitStr c1) (h2 : DigitStr c2)
+    (h : compKey c1 = compKey c2) : hashComp c1 = hashComp c2 := by
+  by_cases z1 : c1.head? = some '0' <;> by_cases z2 : c2.head? = some '0'
+  · simp only [compKey, z1, z2, beq_self_eq_true, if_true, Prod.mk.injEq] at h
+    simp [hashComp, z1, z2, h.2.1]
+  · simp [compKey, z1, z2] at h
+  · simp [compKey, z1, z2] at h
+  · simp only [compKey, z1, z2, beq_iff_eq, if_false, Prod.mk.injEq] at h
+    simp only [hashComp, beq_iff_eq, z1, z2, if_false]
+    exact natOfDigits_inj c1 c2 h1.2 h2.2 z1 z2 h.2.2
+
+theorem map_compKey_hash (l1 : List (List Char)) : ∀ l2 : List (List Char),
+    (∀ v ∈ l1, DigitStr v) → (∀ v ∈ l2, DigitStr v) →
+    l1.map compKey = l2.map compKey → l1.map hashComp = l2.map hashComp := by
+  induction l1 with
+  | nil => intro l2 _ _ h; cases l2 <;> simp_all
+  | cons x xs ih =>
+    intro l2 h1 h2 h
+    cases l2 with
+    | nil => simp at h
+    | cons y ys =>
+      simp only [List.map_cons, List.cons.injEq] at h ⊢
+      exact ⟨compKey_hash x y (h1 x (by simp)) (h2 y (by simp)) h.1,
+        ih ys (fun v hv => h1 v (by simp [hv])) (fun v hv => h2 v (by simp [hv])) h.2⟩
+
+/-! #### the letter: off the dotted string (`get_hash_key`) or off the last component (`vercmp`) -/
+
+/-- `ord(letter)` or `-1`, read on the whole dotted string -/
+def letterInt (h : List Char) : Int :=
+  match h.getLast? with
+  | some c => if c.isAlpha then c.toNat else -1
+  | none => -1
+
+theorem splitLetter_cons (c d : Char) (ds : List Char) :
+    (splitLetter (c :: d :: ds)).2 = c :: (splitLetter (d :: ds)).2
+    ∧ (splitLetter (c :: d :: ds)).1 = (splitLetter (d :: ds)).1
+    ∧ letterInt (c :: d :: ds) = letterInt (d :: ds) := by
+  simp only [splitLetter, letterInt, List.getLast?_cons_cons, List.dropLast_cons_cons]
+  cases (d :: ds).getLast? with
+  | none => simp
+  | some x => by_cases hx : x.isAlpha = true <;> simp [hx]
+
+theorem splitOn_nil_nil (sep : Char) (s : List Char) (h : splitOn sep s = ([], [])) : s = [] := by
+  cases s with
+  | nil => rfl
+  | cons c cs =>
+    simp only [splitOn] at h
+    by_cases hc : (c == sep) = true <;> simp [hc] at h
+
+theorem splitOn_cons (sep c : Char) (cs : List Char) :
+    splitOn sep (c :: cs) = if (c == sep) = true then ([], (splitOn sep cs).1 :: (splitOn sep cs).2)
+      else (c :: (splitOn sep cs).1, (splitOn sep cs).2) := rfl
+
+theorem stripLetter_cons_cons (x y : List Char) (ys : List (List Char)) :
+    stripLetter (x :: y :: ys) = (x :: (stripLetter (y :: ys)).1, (stripLetter (y :: ys)).2) := by
+  simp [stripLetter]
+
+theorem stripLetter_single (x : List Char) :
+    stripLetter [x] = ([(splitLetter x).2], letterInt x) := by
+  simp only [stripLetter, splitLetter, letterInt]
+  cases x.getLast? with
+  | none => simp
+  | some c => by_cases hc : c.isAlpha = true <;> simp [hc]
+
+/-- taking the letter off the last dotted component, or off the dotted string before splitting
+it, is the same -/
+theorem stripLetter_splitList (h : List Char) :
+    stripLetter (splitList '.' h) = (splitList '.' (splitLetter h).2, letterInt h) := by
+  induction h with
+  | nil => simp [splitList, splitOn, stripLetter, splitLetter, letterInt]
+  | cons c cs ih =>
+    cases cs with
+    | nil =>
+      by_cases hc : (c == '.') = true
+      · have : c = '.' := by simpa using hc
+        subst this
+        simp [splitList, splitOn, stripLetter, splitLetter, letterInt]
+      · have hc' : (c == '.') = false := by simpa using hc
+        by_cases ha : c.isAlpha = true <;>
+          simp [splitList, splitOn, stripLetter, splitLetter, letterInt, hc', ha]
+    | cons d ds =>
+      obtain ⟨e1, _, e3⟩ := splitLetter_cons c d ds
+      rw [e1, e3]
+      simp only [splitList] at ih ⊢
+      generalize hb : (splitLetter (d :: ds)).2 = body at ih ⊢
+      rw [splitOn_cons '.' c (d :: ds), splitOn_cons '.' c body]
+      generalize hx : splitOn '.' (d :: ds) = X at ih ⊢
+      generalize hy : splitOn '.' body = Y at ih ⊢
+      obtain ⟨x, xs⟩ := X
+      obtain ⟨y, ys⟩ := Y
+      simp only at ih ⊢
+      by_cases hc : (c == '.') = true
+      · simp only [hc, if_true, stripLetter_cons_cons, ih]
+      · have hc' : (c == '.') = false := by simpa using hc
+        simp only [hc', Bool.false_eq_true, if_false]
+        cases xs with
+        | cons z zs =>
+          rw [stripLetter_cons_cons] at ih ⊢
+          simp only [Prod.mk.injEq, List.cons.injEq] at ih
+          obtain ⟨⟨i1, i2⟩, i3⟩ := ih
+          simp [i1, i2, i3]
+        | nil =>
+          have hxne : x ≠ [] := by
+            intro hx0
+            subst hx0
+            exact absurd (splitOn_nil_nil '.' (d :: ds) hx) (by simp)
+          cases x with
+          | nil => exact absurd rfl hxne
+          | cons e es =>
+            rw [stripLetter_single] at ih ⊢
+            obtain ⟨f1, _, f3⟩ := splitLetter_cons c e es
+            rw [f1, f3]
+            simp only [Prod.mk.injEq, List.cons.injEq] at ih
+            obtain ⟨⟨i1, i2⟩, i3⟩ := ih
+            subst i2
+            simp [i1, i3]
+
+theorem letter_of_int (h1 h2 : List Char) (h : letterInt h1 = letterInt h2) :
+    (splitLetter h1).1 = (splitLetter h2).1 := by
+  have enc : ∀ x : List Char, letterInt x = -1 ∧ (splitLetter x).1 = []
+      ∨ ∃ c : Char, letterInt x = (c.toNat : Int) ∧ (splitLetter x).1 = [c] := by
+    intro x
+    simp only [letterInt, splitLetter]
+    cases x.getLast? with
+    | none => simp
+    | some c =>
+      by_cases hc : c.isAlpha = true
+      · right; exact ⟨c, by simp [hc]⟩
+      · left; simp [hc]
+  rcases enc h1 with ⟨a1, b1⟩ | ⟨c1, a1, b1⟩ <;> rcases enc h2 with ⟨a2, b2⟩ | ⟨c2, a2, b2⟩
+  · rw [b1, b2]
+  · rw [a1, a2] at h; omega
+  · rw [a1, a2] at h; omega
+  · rw [a1, a2] at h
+    have : c1.toNat = c2.toNat := by omega
+    rw [b1, b2, Char.toNat_inj.1 this]
+
+/-! #### the suffixes -/
+
+theorem sufNames_inj : ∀ e1 ∈ sufNames, ∀ e2 ∈ sufNames, e1.2 = e2.2 → e1.1 = e2.1 := by decide
+
+theorem hashSuf_of_key (p q : List Char) (hp : SufOK p) (hq : SufOK q) (h : sufKey p = sufKey q) :
+    hashSuf p = hashSuf q ∧ (hashSuf p).isSome = true := by
+  obtain ⟨n1, v1, d1, m1⟩ := sufOK_matchIn p hp
+  obtain ⟨n2, v2, d2, m2⟩ := sufOK_matchIn q hq
+  obtain ⟨k1, _, t1⟩ := sufMatchIn_some sufNames sufNames_ok p n1 v1 d1 m1
+  obtain ⟨k2, _, t2⟩ := sufMatchIn_some sufNames sufNames_ok q n2 v2 d2 m2
+  rw [k1, k2] at h
+  simp only [Prod.mk.injEq] at h
+  have hn : n1 = n2 := sufNames_inj _ t1 _ t2 h.1
+  simp [hashSuf, m1, m2, natOfDigits_zero_cons, hn, h.2]
+
+theorem map_sufKey_hash (l1 : List (List Char)) : ∀ l2 : List (List Char),
+    (∀ p ∈ l1, SufOK p) → (∀ p ∈ l2, SufOK p) →
+    l1.map sufKey = l2.map sufKey → l1.filterMap hashSuf = l2.filterMap hashSuf := by
+  induction l1 with
+  | nil => intro l2 _ _ h; cases l2 <;> simp_all
+  | cons x xs ih =>
+    intro l2 h1 h2 h
+    cases l2 with
+    | nil => simp at h
+    | cons y ys =>
+      simp only [List.map_cons, List.cons.injEq] at h
+      obtain ⟨e, hs⟩ := hashSuf_of_key x y (h1 x (by simp)) (h2 y (by simp)) h.1
+      have ih' := ih ys (fun v hv => h1 v (by simp [hv])) (fun v hv => h2 v (by simp [hv])) h.2
+      cases hx : hashSuf x with
+      | none => simp [hx] at hs
+      | some v =>
+        rw [List.filterMap_cons_some hx, List.filterMap_cons_some (e ▸ hx), ih']
+
+theorem sufKey_ne_pad (l : List (List Char)) (hl : ∀ p ∈ l, SufOK p) :
+    (∀ x ∈ l.map sufKey, sufCmp x Suf.pad ≠ .eq) ∧ (∀ x ∈ l.map sufKey, sufCmp Suf.pad x ≠ .eq) := by
+  constructor <;>
+  · intro x hx h
+    simp only [List.mem_map] at hx
+    obtain ⟨p, hp, rfl⟩ := hx
+    have h0 := (suf_eq_sufKey p (hl p hp)).2
+    have := sufCmp_eq_eq _ _ h
+    simp only [Suf.pad] at this
+    first
+      | exact h0 (by rw [this])
+      | exact h0 (by rw [← this])
+
+/-- C12: on valid versions `==` implies equal hash keys -/
+theorem eq_imp_hash (a b : Raw) (ha : Valid a) (hb : Valid b) :
+    verOps.eq a b = true → hashKey a = hashKey b := by
   intro h
-  have := h.le "1.10".toList "1.9".toList
-  revert this
-  decide
+  have hv : vercmp a b = .eq := by simpa [verOps] using h
+  rw [vercmp_eq_keyC a b ha hb] at hv
+  have hca := valid_comps a ha
+  have hcb := valid_comps b hb
+  have hsa := valid_sufs a ha
+  have hsb := valid_sufs b hb
+  simp only [pieces] at hca hcb hsa hsb
+  simp only [keyCmpC, keyC, pieces, lexPair, Ordering.then_eq_eq, natCmp, intCmp,
+    Nat.compare_eq_eq, Int.compare_eq_eq] at hv
+  obtain ⟨h1, h2, h3, h4⟩ := hv
+  have e1 := lexList_eq_eq compCmp compCmp_eq_eq _ _ h1
+  have e3 := padLex_eq_eq sufCmp Suf.pad sufCmp_eq_eq _ _ (sufKey_ne_pad _ hsa).1
+    (sufKey_ne_pad _ hsb).2 h3
+  have sa := stripLetter_splitList (splitOn '_' (parseVR a).1).1
+  have sb := stripLetter_splitList (splitOn '_' (parseVR b).1).1
+  rw [sa] at hca e1 h2
+  rw [sb] at hcb e1 h2
+  simp only at hca hcb e1 h2
+  simp only [hashKey, map_compKey_hash _ _ hca hcb e1, letter_of_int _ _ h2,
+    map_sufKey_hash _ _ hsa hsb e3, h4]
 
-/-! ### hash (C12) -/
+theorem hashable_true : hashable = true := rfl
 
-/-- C12 holds vacuously: both classes are unhashable (`hashable = false`) -/
-theorem eq_imp_hash (a b : Raw) : verOps.eq a b = true → hashKey a = hashKey b := fun _ => rfl
-
-theorem hashable_false : hashable = false := rfl
+/-- the examples of the docstring of `get_hash_key` -/
+example : hashKey "1.0".toList = hashKey "1.00".toList
+    ∧ hashKey "1.2b_p-r0".toList = hashKey "1.2b_p0".toList
+    ∧ (hashKey "1.10".toList).1 ≠ (hashKey "1.1".toList).1 := ⟨by rfl, by rfl, by decide⟩
 
 /-! ### construction and `str` (C11) -/
 
@@ -713,9 +1044,9 @@ open Univers.Gentoo
 #print axioms vercmp_eq_key_partial
 #print axioms vercmp_eq_key_counterexample
 #print axioms vercmp_eq_key_counterexample_alpine
-#print axioms verOps_lawful_partial
-#print axioms verOps_le_counterexample
-#print axioms not_lawful_verOps
+#print axioms verOps_lawful
+#print axioms eq_imp_hash
+#print axioms stripLetter_splitList
 #print axioms str_roundtrip
 #print axioms str_roundtrip_alpine
 #print axioms construct_wf
